@@ -314,7 +314,10 @@ func (s *storage) bootstrap(config Config) (err error) {
 	}()
 	s.appendEntry(config.encode())
 	s.commitLog(1)
-	s.setTerm(1)
+	if s.term < 1 {
+		// the node may already have adopted a higher term from a vote request
+		s.setTerm(1)
+	}
 	s.lastLogIndex, s.lastLogTerm = config.Index, config.Term
 	return nil
 }
